@@ -495,10 +495,9 @@ func (u *unitCtx) compound(level int, k int) {
 		w.S(")")
 		u.bodyOf(level)
 	case 11: // switch
-		if u.g.o.ScopeEnds {
-			// what the groups declare ends with the switch
-			defer func(saved int) { u.scope = u.scope[:saved] }(len(u.scope))
-		}
+		// what the groups declare ends with the switch (Java scoping; not an option: a name used
+		// after the switch would refer to something else, or to nothing)
+		defer func(saved int) { u.scope = u.scope[:saved] }(len(u.scope))
 		w.S("switch (" + fmt.Sprint(rapid.IntRange(0, 3).Draw(t, "switchOn")) + ") {\n")
 		w.S(u.ind(level) + "case 1:\n" + u.ind(level+1))
 		u.simpleStmt(level + 1)
@@ -1080,6 +1079,9 @@ func (u *unitCtx) staticCall(level, depth int) {
 		w.S(name)
 		u.event(Event{Kind: "call", Name: name, Line: line, Col: col, Recv: "static"})
 		u.args(level, depth, true)
+		return
+	}
+	if u.g.o.FieldChainCalls && u.systemOutCall(level, depth) {
 		return
 	}
 	recv, name := "Math", "abs"
